@@ -934,6 +934,89 @@ fn pipe_join(args: &[i128]) -> Result<String, String> {
     }))
 }
 
+struct Paced {
+    start: std::time::Instant,
+    events: Vec<(u64, Kv)>,
+    end_at: u64,
+    pos: usize,
+}
+
+impl Paced {
+    fn wait(&self, ms: u64) {
+        let t = self.start + std::time::Duration::from_millis(ms);
+        let now = std::time::Instant::now();
+        if t > now {
+            std::thread::sleep(t - now);
+        }
+    }
+}
+
+impl Iterator for Paced {
+    type Item = Kv;
+    fn next(&mut self) -> Option<Kv> {
+        if self.pos < self.events.len() {
+            let (at, item) = self.events[self.pos];
+            self.pos += 1;
+            self.wait(at);
+            Some(item)
+        } else {
+            self.wait(self.end_at);
+            None
+        }
+    }
+}
+
+/// pipe_keyed_join [variant(0 inner / 2 outer), nevents, (kind, key, id)*]: kind 0 = left item, 1 = right item,
+/// 2 = the left input ends, 3 = the right input ends; event i happens 80 ms after event i-1 (BatchMode::single, one
+/// replica), so the items and the ends of the two sides reach the join in script order.
+/// Job: `l.group_by(key).join / join_outer(r.group_by(key))`. Output: sorted `k:lid-rid` (`_` = None).
+fn pipe_keyed_join(args: &[i128]) -> Result<String, String> {
+    let mut a = Args::new("pipe_keyed_join", args);
+    let variant = a.ranged("variant", 0, 2)? as u8;
+    let n = a.ranged("nevents", 2, MAX_ITEMS)? as usize;
+    let mut ev: Vec<Vec<(u64, Kv)>> = vec![Vec::new(), Vec::new()];
+    let mut ends = [0u64, 0u64];
+    for i in 0..n {
+        let kind = a.ranged("kind", 0, 3)?;
+        let k = a.u64("key")?;
+        let id = a.u64("id")?;
+        let at = 300 + 80 * i as u64;
+        match kind {
+            0 => ev[0].push((at, (k, id))),
+            1 => ev[1].push((at, (k, id))),
+            2 => ends[0] = at,
+            _ => ends[1] = at,
+        }
+    }
+    a.end()?;
+    if ends[0] == 0 || ends[1] == 0 {
+        return Err("BADARGS pipe_keyed_join: both sides need an end event".into());
+    }
+    let r_ev = ev.pop().unwrap();
+    let l_ev = ev.pop().unwrap();
+    Ok(supervised(move || {
+        let env = context(1);
+        let start = std::time::Instant::now();
+        let l = env
+            .stream_iter(Paced { start, events: l_ev, end_at: ends[0], pos: 0 })
+            .batch_mode(BatchMode::single())
+            .group_by(|x: &Kv| x.0);
+        let r = env
+            .stream_iter(Paced { start, events: r_ev, end_at: ends[1], pos: 0 })
+            .batch_mode(BatchMode::single())
+            .group_by(|x: &Kv| x.0);
+        if variant == 0 {
+            let out = l.join(r).collect_vec();
+            env.execute_blocking();
+            fmt_opt_join(out.get().map(|v| v.into_iter().map(|(k, (l, r))| (k, Some(l), Some(r))).collect()))
+        } else {
+            let out = l.join_outer(r).collect_vec();
+            env.execute_blocking();
+            fmt_opt_join(out.get().map(|v| v.into_iter().map(|(k, (l, r))| (k, l, r)).collect()))
+        }
+    }))
+}
+
 #[no_mangle]
 pub fn verif_replay_pipe(name: &str, args: &[i128]) -> Option<String> {
     let r = match name {
@@ -947,6 +1030,7 @@ pub fn verif_replay_pipe(name: &str, args: &[i128]) -> Option<String> {
         "pipe_nested" => pipe_nested(args),
         "pipe_agg2" => pipe_agg2(args),
         "pipe_join" => pipe_join(args),
+        "pipe_keyed_join" => pipe_keyed_join(args),
         _ => return None,
     };
     Some(match r {
